@@ -27,6 +27,17 @@ def check_self(spec):
         sp, _ = repl.patterns(spec['pair'])
         rp = sp.copy()
         S = case['structure']
+        if spec.get('with_terms'):
+            # the structure carries several terms over the same atoms; the pattern carries only some of them (to override one term)
+            from bounded import C06
+            from mofun import Atoms
+            S = C06.structure_with_terms(case, 1, random.Random(spec['seed']))
+            case = dict(case, structure=S)
+            n = len(sp.positions)
+            with quiet():
+                rp = Atoms(elements=list(sp.elements), positions=np.array(sp.positions), bonds=[(0, 1)], bond_types=[0], bond_type_coeffs=["harmonic 9 9 # P"],
+                           angles=[(0, 1, 2)] if n >= 3 else [], angle_types=[0] if n >= 3 else [], angle_type_coeffs=["cosine 9 # P"] if n >= 3 else [],
+                           pair_coeffs=["lj 1 1 # %s" % e for e in dict.fromkeys(sp.elements)])
     try:
         res, num = repl.do_replace(case, sp, rp, seed=spec.get('rng', 0))
     except Exception as e:
@@ -50,15 +61,19 @@ def check_self(spec):
 def check_aba(spec):
     """Substitute site pattern A by B, then B by A: multiset of (element, position mod lattice) restored; after A->B no A remains."""
     from mofun import Atoms, replace_pattern_in_structure, find_pattern_in_structure
-    case = repl.planted(spec['cell'], spec['pair'], spec['copies'], spec['seed'])
+    atol = spec.get('atol', 0.05)
+    case = repl.planted(spec['cell'], spec['pair'], spec['copies'], spec['seed'], noise=spec.get('noise', 0.0))
     A, B = repl.patterns(spec['pair'])
     S, cell = case['structure'], case['cell']
     random.seed(1)
     with quiet():
         try:
-            s1 = replace_pattern_in_structure(S, A, B)
-            left = find_pattern_in_structure(s1, A)
-            s2 = replace_pattern_in_structure(s1, B, A)
+            before = find_pattern_in_structure(S, A, atol=atol)
+            if len(before) < len(case['planted']):
+                return "only %d of %d planted occurrences are found at atol=%r" % (len(before), len(case['planted']), atol)
+            s1 = replace_pattern_in_structure(S, A, B, atol=atol)
+            left = find_pattern_in_structure(s1, A, atol=atol)
+            s2 = replace_pattern_in_structure(s1, B, A, atol=atol)
         except Exception as e:
             return "raised %r" % (e,)
     if len(left) != 0:
@@ -66,7 +81,7 @@ def check_aba(spec):
     if sorted(s2.elements) != sorted(S.elements):
         return "A->B->A changed the elements: %r vs %r" % (sorted(s2.elements), sorted(S.elements))
     for e, p in zip(S.elements, S.positions):
-        if not any(e == e2 and repl.lattice_equal(cell, p, p2, 1e-4) for e2, p2 in zip(s2.elements, s2.positions)):
+        if not any(e == e2 and repl.lattice_equal(cell, p, p2, 1e-4 + 2.5 * spec.get('noise', 0.0)) for e2, p2 in zip(s2.elements, s2.positions)):
             return "A->B->A lost atom %s at %r" % (e, list(np.round(p, 4)))
     return None
 
@@ -100,6 +115,20 @@ def run(rec, tier, seed):
             rec.case(repr(sorted(spec.items())), group='A-B-A')
             if msg:
                 rec.fail('selfrepl', 'reversible', "%s on %r" % (msg, spec), spec, 'C08/A-B-A')
+    for ci, cell in enumerate(geo.CELLS):
+        for pair in ('swap-element', 'shrink-shared'):
+            spec = dict(cell=cell, pair=pair, copies=2, seed=seed * 10 + 80 + ci, with_terms=True)
+            msg = check_self(spec)
+            rec.case(repr(sorted(spec.items())), group='self-with-terms')
+            if msg:
+                rec.fail('selfrepl', 'self-replacement-terms', "%s on %r" % (msg, spec), spec, 'C08/self-replacement')
+    for ci, cell in enumerate(('cubic', 'tri+', 'rhombo')):
+        for pair in ('swap-element', 'collinear-swap'):
+            spec = dict(cell=cell, pair=pair, copies=3, seed=seed * 10 + 90 + ci, aba=True, atol=0.15, noise=0.04)
+            msg = check_aba(spec)
+            rec.case(repr(sorted(spec.items())), group='A-B-A-wide-tolerance')
+            if msg:
+                rec.fail('selfrepl', 'reversible-atol', "%s on %r" % (msg, spec), spec, 'C08/A-B-A')
     if tier == 'thorough':
         for f, pf in (('tests/uio66/uio66.cif', 'tests/uio66/uio66-linker.cml'), ('tests/uio66/uio66-triclinic.cif', 'tests/uio66/uio66-linker.cml')):
             spec = dict(file=f, patfile=pf)
